@@ -69,7 +69,8 @@ RECURSIVE Edits(_, _)
 Edits(s, path) ==
   IF IsLeaf(s) THEN {}
   ELSE {[e |-> "drop", path |-> Append(path, k), s |-> Node("D", {p \in s.kids : p[1] # k})] : k \in KeysOf(s)}
-       \cup {[e |-> "add", path |-> Append(path, "zz"), s |-> Node("D", s.kids \cup {<<"zz", Leaf>>})]}
+       \* an entry no target has ("zz"), or one named like the *static* field of the struct dataclass ("st": not a state entry either)
+       \cup {[e |-> "add", path |-> Append(path, nm), s |-> Node("D", s.kids \cup {<<nm, Leaf>>})] : nm \in {"zz", "st"}}
        \cup UNION {{[e |-> ed.e, path |-> ed.path, s |-> Node("D", {p \in s.kids : p[1] # k} \cup {<<k, ed.s>>})]
                     : ed \in Edits(Child(s, k), Append(path, k))} : k \in KeysOf(s)}
 
